@@ -129,6 +129,23 @@ def churn_shard(shard, nshards, seed, tier, exe, nhist):
             continue
         if "h" not in res:
             raise core.Inconclusive("hash probe failed")
+        # long runs: a table with n consecutively occupied slots (every key at home) plus one key whose home is the first of them -- a member n slots away from where its hash
+        # points, under this hash function and seed (the driver picks the keys by asking the library for their hashes, see OLONGRUN)
+        for nrun in ([rng.choice([130, 255, 256, 257, 300, 1000]), rng.choice([32767, 32768, 40000]), rng.choice([65535, 65536, 65537, 70000, 90000])] if shard % 4 == rnd else [rng.choice([2, 17, 128, 300, 5000])]):
+            lres, lcr = core.run_script(exe, [("lr", ["HASHFN %d" % hashfn, "OLONGRUN %d" % nrun])], env=env, tag="c06", timeout=600)
+            rep = {"driver": "jcdrv", "variant": "asan", "env": env, "script": ["HASHFN %d" % hashfn, "OLONGRUN %d" % nrun]}
+            sh.evaluations += 8
+            for c in lcr:
+                kind_, frame = c.summary()
+                sh.violation("C06/long-run/%s/%s" % ("hang" if c.kind == "hang" else kind_, frame), "object with a run of %d occupied slots: %s" % (nrun, kind_), dict(rep, stderr=c.stderr[-2000:]))
+            for ln in lres.get("lr", [])[1:2]:
+                if ln.startswith("= ok"):
+                    sh.count("long_runs.held")
+                    sh.cmax("max_displacement_of_a_live_key_in_long_runs", int(ln.split("disp=")[1]))
+                elif ln.startswith("= skip"):
+                    sh.count("long_runs.construction_not_applicable." + ln.split()[2])
+                else:
+                    sh.violation("C06/long-run/" + "-".join(ln[6:].split()[:4]), "object with a run of %d occupied slots (hash function %d): %s" % (nrun, hashfn, ln[2:]), rep)
         hv = [int(x) for x in res["h"][1].split()[1:]]
         buckets = {}
         for c, h in zip(cands, hv):
